@@ -54,8 +54,58 @@ func ccpEval(v ssa.Value, bind map[ssa.Value]string, depth int) (ccpVal, bool) {
 				return ccpVal{kind: "b", b: !a.b}, true
 			}
 		}
+	case *ssa.Slice:
+		a, ok := ccpEval(x.X, bind, depth+1)
+		if !ok || a.kind != "s" {
+			return ccpVal{}, false
+		}
+		lo, hi := int64(0), int64(len(a.s))
+		if x.Low != nil {
+			l, ok := ccpEval(x.Low, bind, depth+1)
+			if !ok || l.kind != "i" {
+				return ccpVal{}, false
+			}
+			lo = l.i
+		}
+		if x.High != nil {
+			h, ok := ccpEval(x.High, bind, depth+1)
+			if !ok || h.kind != "i" {
+				return ccpVal{}, false
+			}
+			hi = h.i
+		}
+		if lo < 0 || hi > int64(len(a.s)) || lo > hi {
+			return ccpVal{}, false // would panic: not foldable
+		}
+		return ccpVal{kind: "s", s: a.s[lo:hi]}, true
+	case *ssa.Convert:
+		return ccpEval(x.X, bind, depth+1)
 	case *ssa.Call:
+		two := func(f func(a, b string) ccpVal) (ccpVal, bool) {
+			a, ok1 := ccpEval(x.Call.Args[0], bind, depth+1)
+			b, ok2 := ccpEval(x.Call.Args[1], bind, depth+1)
+			if ok1 && ok2 && a.kind == "s" && b.kind == "s" {
+				return f(a.s, b.s), true
+			}
+			return ccpVal{}, false
+		}
 		switch calleeName(&x.Call) {
+		case "strings.Count":
+			return two(func(a, b string) ccpVal { return ccpVal{kind: "i", i: int64(strings.Count(a, b))} })
+		case "strings.TrimSuffix":
+			return two(func(a, b string) ccpVal { return ccpVal{kind: "s", s: strings.TrimSuffix(a, b)} })
+		case "strings.TrimPrefix":
+			return two(func(a, b string) ccpVal { return ccpVal{kind: "s", s: strings.TrimPrefix(a, b)} })
+		case "strings.TrimRight":
+			return two(func(a, b string) ccpVal { return ccpVal{kind: "s", s: strings.TrimRight(a, b)} })
+		case "strings.TrimLeft":
+			return two(func(a, b string) ccpVal { return ccpVal{kind: "s", s: strings.TrimLeft(a, b)} })
+		case "strings.Trim":
+			return two(func(a, b string) ccpVal { return ccpVal{kind: "s", s: strings.Trim(a, b)} })
+		case "strings.Index":
+			return two(func(a, b string) ccpVal { return ccpVal{kind: "i", i: int64(strings.Index(a, b))} })
+		case "strings.LastIndex":
+			return two(func(a, b string) ccpVal { return ccpVal{kind: "i", i: int64(strings.LastIndex(a, b))} })
 		case "builtin len":
 			if a, ok := ccpEval(x.Call.Args[0], bind, depth+1); ok && a.kind == "s" {
 				return ccpVal{kind: "i", i: int64(len(a.s))}, true
@@ -96,6 +146,10 @@ func ccpEval(v ssa.Value, bind map[ssa.Value]string, depth int) (ccpVal, bool) {
 			}
 		case "i":
 			switch x.Op {
+			case token.ADD:
+				return ccpVal{kind: "i", i: a.i + b.i}, true
+			case token.SUB:
+				return ccpVal{kind: "i", i: a.i - b.i}, true
 			case token.EQL:
 				return bo(a.i == b.i)
 			case token.NEQ:
@@ -424,18 +478,52 @@ func c16WalkName(r *Run, fn *ssa.Function) {
 		r.Bad("result", "WalkName: validates with ValidPath and bounds '..' by the depth", fn.Pos(), fmt.Sprintf("%d ValidPath calls, %d strings.Count calls", len(vps), len(cnts)))
 		return
 	}
-	vp, cnt := vps[0], cnts[0]
+	vp := vps[0]
+	_ = cnts
 	r.Check(vp.Call.Args[0] == ssa.Value(names), "result", "WalkName: validates the names it was given", vp.Pos(), "ValidPath is applied to something else")
-	// depth = strings.Count(dir[:len(dir)-1], "/")
-	okDepth := false
-	if sl, ok := cnt.Call.Args[0].(*ssa.Slice); ok && sl.X == ssa.Value(dir) && sl.Low == nil && sl.High != nil {
-		if fa.Lin(sl.High).Equal(fa.linSym(lenOf(fa.Sym(dir)), 0).Sub(linConst(1))) {
-			if k, ok := cnt.Call.Args[1].(*ssa.Const); ok && k.Value != nil && k.Value.ExactString() == `"/"` {
-				okDepth = true
+	// the bound the leading-'..' count is compared with: the other side of the comparisons with ValidPath's result
+	var depthVal ssa.Value
+	eachInstr(fn, func(in ssa.Instruction) {
+		b, ok := in.(*ssa.BinOp)
+		if !ok {
+			return
+		}
+		switch b.Op {
+		case token.GTR, token.LSS, token.GEQ, token.LEQ:
+			if b.X == ssa.Value(vp) {
+				if _, isC := b.Y.(*ssa.Const); !isC {
+					depthVal = b.Y
+				}
+			} else if b.Y == ssa.Value(vp) {
+				if _, isC := b.X.(*ssa.Const); !isC {
+					depthVal = b.X
+				}
 			}
 		}
+	})
+	if depthVal == nil {
+		r.Bad("result", "WalkName: bounds the leading '..' run by the depth of dir", fn.Pos(), "the number of leading '..' is not compared with the depth of the directory")
+		return
 	}
-	r.Check(okDepth, "result", "WalkName: depth = number of '/' in dir without its last byte", cnt.Pos(), "the depth of dir is computed differently: '..' runs are bounded by the wrong number")
+	// depth(dir) folded over canonical directories: "/"→0, "/a"→1, "/a/b"→2, …
+	okDepth := true
+	gotD := []string{}
+	for d, want := range map[string]int64{"/": 0, "/a": 1, "/a/b": 2, "/a/b/c": 3, "/abc/d.e": 2, "/x/y/z/w": 4} {
+		v, ok := ccpEval(depthVal, map[ssa.Value]string{dir: d}, 0)
+		if !ok || v.kind != "i" {
+			okDepth = false
+			gotD = append(gotD, fmt.Sprintf("depth(%q) not foldable", d))
+			continue
+		}
+		if v.i != want {
+			okDepth = false
+			gotD = append(gotD, fmt.Sprintf("depth(%q)=%d, want %d", d, v.i, want))
+		}
+	}
+	sort.Strings(gotD)
+	r.Check(okDepth, "result", "WalkName: depth(dir) is the number of path elements of dir (0 for the root)", vp.Pos(),
+		"the bound on leading '..' is not the depth of the canonical directory: "+strings.Join(gotD, "; ")+" — '..' can climb above the root or a legal '..' is refused")
+	cnt := depthVal
 	nS := 0
 	for _, ret := range returnsOf(fn) {
 		if !isNilConst(ret.Results[1]) {
